@@ -373,6 +373,10 @@ type memStream struct {
 	mu    sync.Mutex
 	cur   []OResp
 	syncs int64 // sync responses sent so far (atomic)
+	// handed: requests (the first one, triggers, injected Recv errors) the client
+	// has committed to put on the request stream; recvd: requests Recv has handed
+	// to the server.  A polling call is not quiescent while recvd < handed.
+	handed, recvd int64
 	// the gate: -1 open; k >= 0: k more Sends may pass, then Send blocks.  A Send
 	// waits at the gate BEFORE it looks at the response: what is recorded is what
 	// the stream carries at the time it is actually written.
@@ -401,11 +405,13 @@ func (s *memStream) Recv() (*pb.SubscribeRequest, error) {
 		if !ok {
 			return nil, io.EOF
 		}
+		atomic.AddInt64(&s.recvd, 1)
 		return r, nil
 	case <-s.recvErr:
 		s.mu.Lock()
 		s.recvFailed = true
 		s.mu.Unlock()
+		atomic.AddInt64(&s.recvd, 1)
 		return nil, errStream
 	}
 }
@@ -468,6 +474,7 @@ func (s *memStream) Send(r *pb.SubscribeResponse) error {
 	}
 	s.mu.Unlock()
 	if msg != nil {
+		atomic.AddInt64(&s.handed, 1) // committed now, whenever the goroutine below gets to run
 		if mode == 2 {
 			go func() { s.reqs <- msg }()
 		} else {
@@ -628,16 +635,25 @@ func settle(rpcs []*rpc, limit time.Duration) bool {
 				return true
 			}
 		} else if g.server == g.blocked && g.parkedSenders+g.gatedSenders == live {
-			still := 0
+			// ... and a polling call has been handed everything its client sent
+			// (a trigger issued from inside a Send, possibly by a goroutine that has
+			// not run yet, is "sent" from the moment the client committed to it)
+			still, pending := 0, false
 			for _, r := range rpcs {
 				if r.started && !r.returned() {
 					still++
+					if r.req != nil && r.req.HasSub && r.req.Mode == 2 &&
+						atomic.LoadInt64(&r.st.recvd) < atomic.LoadInt64(&r.st.handed) {
+						pending = true
+					}
 				}
 			}
-			if still == live {
+			if still == live && !pending {
 				return true
 			}
-			continue
+			if still != live {
+				continue
+			}
 		}
 		if i%64 == 63 && time.Since(t0) > limit {
 			return false
@@ -1071,6 +1087,7 @@ func runScript(c *Case, withACL bool, faults bool) []*Run {
 	startRPC := func(r *rpc) {
 		r.started = true
 		if r.req != nil {
+			atomic.AddInt64(&r.st.handed, 1)
 			r.st.reqs <- pbRequest(r.req)
 		} else {
 			close(r.st.reqs)
@@ -1136,8 +1153,10 @@ func runScript(c *Case, withACL bool, faults bool) []*Run {
 			} else if r.started && !r.closedReqs && !r.returned() {
 				polls++
 				if faults && c.RecvErrAt > 0 && polls == c.RecvErrAt {
+					atomic.AddInt64(&r.st.handed, 1)
 					r.st.recvErr <- struct{}{}
 				} else {
+					atomic.AddInt64(&r.st.handed, 1)
 					r.st.reqs <- trigger(op, r.req)
 				}
 			}
@@ -1246,6 +1265,7 @@ func runScript(c *Case, withACL bool, faults bool) []*Run {
 			case members[0].K == "sub" && !rpcs[0].started:
 				startRPC(rpcs[0])
 			case members[0].K == "poll" && walk:
+				atomic.AddInt64(&rpcs[0].st.handed, 1)
 				rpcs[0].st.reqs <- trigger(op0(members), rpcs[0].req)
 			}
 			writersDone := make(chan struct{})
